@@ -28,4 +28,4 @@ class ColumnControlConstructionTokenTranslator(AbstractTranslator):
             token.in_cell.column = token.matrix.matrix[0].column + 1
             return context.set_sub_cell(token.in_cell, str(token.in_cell.column))
         else:
-            return token.in_cell.column + 1
+            return str(token.in_cell.column + 1)
